@@ -30,9 +30,9 @@ func c07Rewrite(r *fw.Run, p *fw.Program) {
 	if f := Get("C17"); f != nil {
 		sc := r.Scratch()
 		f(sc, p)
-		r.Import(sc, "C17.handlers", "C07.perinput", "a runtime error of the user's program on one input is reported for that input and evaluation continues with the next: the rewrite is `inputs | try (program) catch handler | output`, _query_try/_query_pipe build try-catch and pipe of their arguments in order, eval dispatches evaluation errors to the expression-error callback, which records, prints and does not raise (C17.handlers obligations on the rewrite and the expression-error handler)", 9,
+		r.Import(sc, "C17.handlers", "C07.perinput", "a runtime error of the user's program on one input is reported for that input and evaluation continues with the next: the rewrite is `inputs | try (program) catch handler | output`, _query_try/_query_pipe build try-catch and pipe of their arguments in order, and the expression-error handler records, prints and does not raise (C17.handlers obligations on the rewrite and the expression-error handler)", 8,
 			func(k string) bool {
-				return strings.HasPrefix(k, "rewrite:") || strings.HasPrefix(k, "on_expr_error:") || k == "eval:dispatch" || k == "_cli_eval:eval" || k == "_cli_eval_on_error"
+				return strings.HasPrefix(k, "rewrite:") || strings.HasPrefix(k, "on_expr_error:")
 			})
 	} else {
 		r.Rule("C07.perinput", "borrowed from C17.handlers", 1).Undecided("anchor", "", "property C17 is not registered")
